@@ -356,7 +356,8 @@ theorem stepAttrName_er (s : S) (l : TagL) (c : Char) (p p' q q' : Pos) :
   simp only [addAttr, any_er, TagL.er]
   by_cases h1 : isSpace c = true
   · have hgt : c ≠ '>' := by intro h; simp [h] at h1
-    simp [h1, hgt, S.er, Mode.er, TagL.er]
+    simp only [h1, hgt, if_true, if_false]
+    split <;> simp [S.er, Mode.er, TagL.er]
   by_cases h2 : c = '>'
   · subst h2
     by_cases hd : (l.attrs.any fun b => b.name == (trimOneSpace l.attrName).reverse) = true
